@@ -14,6 +14,9 @@ mkdir -p "$(dirname "$out")"
   first=1
   for f in $(cd "$VERIF_ROOT/overlay" && find . -name '*.go' | sort); do
     f="${f#./}"
+    # an accessor file names the checks that need it: a tree whose internals were renamed then only
+    # stops those checks from building, not all of them
+    if [ -n "${VERIF_CHECK:-}" ] && ! grep -q "^// verif:checks .*\b${VERIF_CHECK}\b" "$VERIF_ROOT/overlay/$f"; then continue; fi
     [ $first = 1 ] || echo ','
     first=0
     printf '"/repo/%s":"%s/overlay/%s"' "$f" "$VERIF_ROOT" "$f"
